@@ -31,3 +31,26 @@ package gateway
 //@   requires[args] treasureInterface != nil && t != nil && t.ExpiredAt == nil
 //@   modifies *
 //@   ensures[expiry_reported_iff_set] (U_treasure_exp(treasureInterface) != 0) <==> (t.ExpiredAt != nil)
+
+// Cap accounting (property C12). Ghost protocol for the swamp's cap mutex:
+//   capmu_held          1 while swamp.capMu is held by this request
+//   count_under_capmu   value of capmu_held at the moment the matching records were counted
+// A count taken before the lock is acquired is stale by the time the budget is computed: another
+// cap-bearing batch can push more records into the filter in between and the cap is exceeded.
+//@ trusted func (github.com/hydraide/hydraide/app/core/hydra/swamp.Swamp).LockCapMu(s)
+//@   modifies ghost("capmu_held")
+//@   ensures ghost("capmu_held") == 1
+//@ trusted func (github.com/hydraide/hydraide/app/core/hydra/swamp.Swamp).UnlockCapMu(s)
+//@   modifies ghost("capmu_held")
+//@   ensures ghost("capmu_held") == 0
+//@ trusted func (github.com/hydraide/hydraide/app/core/hydra/swamp.Swamp).CountMatchingTreasures(s, predicate) (n)
+//@   modifies ghost("count_under_capmu")
+//@   ensures ghost("count_under_capmu") == ghost("capmu_held") && n >= 0
+
+//@ func capPreCount(swampObj, predicate) (count, unlock)
+//@   property C12
+//@   requires[fresh_request] swampObj != nil && ghost("capmu_held") == 0
+//@   modifies *
+//@   ensures[returns_holding_capmu] ghost("capmu_held") == 1
+//@   ensures[count_taken_under_capmu] ghost("count_under_capmu") == 1
+//@   ensures[count_is_callee_result] count == lastret("Swamp.CountMatchingTreasures") && calls("Swamp.CountMatchingTreasures") == old(calls("Swamp.CountMatchingTreasures")) + 1
